@@ -19,6 +19,8 @@ package main
 
 import (
 	"fmt"
+	"os"
+	"path/filepath"
 	"runtime"
 	"sort"
 	"strings"
@@ -97,20 +99,36 @@ func stepClass(a int64) string {
 }
 
 func secRotationFine(c *vlib.Ctx, n int) {
-	c.Cases("rotation-fine", n, func(i int, r *vlib.Rand) { fineScenario(c, "rotation-fine", i, r, false) })
+	c.Cases("rotation-fine", n, func(i int, r *vlib.Rand) { fineScenario(c, "rotation-fine", i, r, false, false) })
 }
 
 // secRotationConstruct: the date changes right after the constructor has returned (possibly
 // before the logger's own goroutine has executed its first statement), then cycle, then lines.
 func secRotationConstruct(c *vlib.Ctx, n int) {
-	c.Cases("rotation-construct", n, func(i int, r *vlib.Rand) { fineScenario(c, "rotation-construct", i, r, true) })
+	c.Cases("rotation-construct", n, func(i int, r *vlib.Rand) { fineScenario(c, "rotation-construct", i, r, true, false) })
 }
+
+// secRotationOpenFailure: the same scenarios, but most cycles that have to open a new file (and
+// a few that do not) first run with an obstacle that makes the open fail (faults.go); lines are
+// logged while it is there; then it is removed, the cycle runs once or twice and the fault-free
+// oracle applies again: lines are in the file of the current virtual date. One scenario in five
+// has the date change right after the constructor returned.
+func secRotationOpenFailure(c *vlib.Ctx, n int) {
+	c.Cases("rotation-open-failure", n, func(i int, r *vlib.Rand) {
+		probeFaults(c)
+		fineScenario(c, "rotation-open-failure", i, r, i%5 == 4, true)
+	})
+}
+
+// keyOpenFailure is the key of rotation failures in scenarios in which opening a file had been
+// made to fail for a while.
+const keyOpenFailure = "FileLogger:rotation/after-open-failure"
 
 // keyNewborn is the key of rotation failures in scenarios in which the date changed between the
 // constructor opening the first file and the end of the logger's start-up.
 const keyNewborn = "FileLogger:rotation/date-changed-right-after-creation"
 
-func fineScenario(c *vlib.Ctx, section string, i int, r *vlib.Rand, construct bool) {
+func fineScenario(c *vlib.Ctx, section string, i int, r *vlib.Rand, construct, faulty bool) {
 	day0 := randDay(r)
 	mid := (day0 + 1) * dayMs
 	d := drawBeforeMidnight(r)
@@ -134,6 +152,15 @@ func fineScenario(c *vlib.Ctx, section string, i int, r *vlib.Rand, construct bo
 	setVirtual(mid - d - lead)
 	s := newScn(c, r)
 	defer s.close()
+	var active *fault // the obstacle that is in place right now
+	defer func() {
+		if active != nil {
+			active.remove()
+		}
+	}()
+	hadFault, inFault := false, false
+	faultLine := map[*call]bool{}
+	var faultClasses []string
 	s.useApply = r.Chance(3, 4)
 	if s.useApply {
 		s.interval = pickInt(r, 0, 0, 10)
@@ -234,6 +261,9 @@ func fineScenario(c *vlib.Ctx, section string, i int, r *vlib.Rand, construct bo
 			calls = append(calls, cl)
 			allowed[cl] = allowedNames()
 			afterCycle[cl] = cycles > 0
+			if inFault {
+				faultLine[cl] = true
+			}
 		}
 	}
 
@@ -251,9 +281,15 @@ func fineScenario(c *vlib.Ctx, section string, i int, r *vlib.Rand, construct bo
 		if newborn {
 			m["date_changed_while_logger_was_created"] = true
 		}
+		if hadFault {
+			m["open_made_to_fail_by"] = faultClasses
+		}
 		return m
 	}
 	rotKey := func() string {
+		if hadFault {
+			return keyOpenFailure
+		}
 		if newborn {
 			return keyNewborn
 		}
@@ -287,6 +323,27 @@ func fineScenario(c *vlib.Ctx, section string, i int, r *vlib.Rand, construct bo
 					dd["call"] = cl.brief()
 					c.Fail("FileLogger:level-gate", fmt.Sprintf("%s line written although the level is %s", epName[cl.EP], rankName[cl.Lvl]), dd)
 				}
+				continue
+			}
+			if faultLine[cl] {
+				// logged while the obstacle was there (or before the first cycle after its removal):
+				// the line may be in the old file or dropped, but never in a file of another name
+				if !cl.present {
+					c.Count("open_failure_lines_during_fault_dropped", 1)
+					continue
+				}
+				okFile := false
+				for _, nm := range names {
+					if nm == cl.file {
+						okFile = true
+					}
+				}
+				if !okFile {
+					dd := detail()
+					dd["call"], dd["allowed_files"] = cl.brief(), names
+					c.Fail(keyOpenFailure, fmt.Sprintf("line logged while the file could not be opened is in %q, a file of none of the dates the clock has been in (%v)", cl.file, names), dd)
+				}
+				c.Count("open_failure_lines_during_fault_written", 1)
 				continue
 			}
 			if !cl.present {
@@ -323,6 +380,9 @@ func fineScenario(c *vlib.Ctx, section string, i int, r *vlib.Rand, construct bo
 			if len(names) == 1 && afterCycle[cl] && s.rot {
 				c.Count("fine_lines_after_cycle_in_current_file", 1)
 			}
+			if len(names) == 1 && hadFault {
+				c.Count("open_failure_lines_after_recovery_in_current_file", 1)
+			}
 			if cl.line <= lastLine[cl.file] {
 				dd := detail()
 				dd["call"] = cl.brief()
@@ -338,11 +398,29 @@ func fineScenario(c *vlib.Ctx, section string, i int, r *vlib.Rand, construct bo
 		curDay = -1
 	}
 	// one step: optional clock move, optional lines before the cycle, cycle, lines, verdicts
-	doStep := func(kind string, target int64, between bool) {
+	doStep := func(kind string, target int64, between bool, withFault bool) {
 		pre, _ := readDirFiles(s.logs)
 		from := vnow()
 		visit(from)
 		moved := target >= 0
+		var flt *fault
+		if withFault {
+			// the obstacle is in place before the date changes (the logger's own timer may run the
+			// cycle at any moment after that)
+			tday := dayOf(from)
+			if moved {
+				tday = dayOf(target)
+			}
+			cls := s.faultClasses(name(tday))
+			flt = s.newFault(cls[r.Intn(len(cls))], name(tday))
+			if err := flt.inject(); err != nil {
+				c.Count("open_failure_obstacle_could_not_be_installed", 1)
+				flt = nil
+			} else {
+				active, hadFault, inFault, s.ownDiag = flt, true, true, true
+				faultClasses = append(faultClasses, flt.class)
+			}
+		}
 		if moved {
 			setVirtual(target)
 			visit(target)
@@ -355,9 +433,33 @@ func fineScenario(c *vlib.Ctx, section string, i int, r *vlib.Rand, construct bo
 			nB = r.Range(1, 3)
 			batch(nB)
 		}
+		nFaultCycles, absent, nRecover := 0, 0, 1
+		if flt != nil {
+			// nothing in here opens a file or reports (the obstacle may be "no descriptor left")
+			nFaultCycles = r.Range(1, 3)
+			for k := 0; k < nFaultCycles; k++ {
+				visit(vnow())
+				s.fl.VerifCycle()
+				visit(vnow())
+				cycles++
+				if fi, err := os.Lstat(filepath.Join(s.logs, name(dayOf(vnow())))); err != nil || !fi.Mode().IsRegular() {
+					absent++
+				}
+				batch(r.Range(1, 3))
+			}
+			flt.remove()
+			active = nil
+			if r.Chance(1, 3) {
+				batch(r.Range(1, 2)) // the obstacle is gone, the cycle has not run yet
+			}
+			inFault = false
+			nRecover = r.Range(1, 2)
+		}
 		cb := vnow()
 		visit(cb)
-		s.fl.VerifCycle()
+		for k := 0; k < nRecover; k++ {
+			s.fl.VerifCycle()
+		}
 		ca := vnow()
 		visit(ca)
 		cycles++
@@ -377,6 +479,27 @@ func fineScenario(c *vlib.Ctx, section string, i int, r *vlib.Rand, construct bo
 			"date_at_cycle": ymdOf(ca), "lines_between_step_and_cycle": nB, "lines_after_cycle": nC, "file_after_cycle": name(D)}
 		if moved {
 			st["step_ms"], st["vclock_target"], st["step_class"] = target-from, target, stepClass(target-from)
+		}
+		if flt != nil {
+			st["open_made_to_fail_by"], st["cycles_while_failing"], st["cycles_after_obstacle_removed"] = flt.class, nFaultCycles, nRecover
+			st["cycles_while_failing_after_which_the_file_was_absent"] = absent
+			c.Count("open_failure_steps", 1)
+			c.Count("open_failure_cycles_under_fault", int64(nFaultCycles))
+			c.SetAdd("open_failure_classes_exercised", flt.class)
+			needsOpen := dayOf(ca) != dayOf(from)
+			if _, ok := pre[name(dayOf(ca))]; !ok {
+				needsOpen = true
+			}
+			if needsOpen {
+				c.Count("open_failure_steps_that_had_to_open_a_file", 1)
+				c.SetAdd("open_failure_families_on_a_date_change", faultFamily(flt.class))
+			}
+			if absent > 0 {
+				c.Count("open_failure_steps_file_absent_while_failing", 1)
+				c.SetAdd("open_failure_classes_observed_to_block_the_open", flt.class)
+			} else if needsOpen {
+				c.Count("open_failure_steps_file_opened_despite_obstacle", 1)
+			}
 		}
 		stepLog = append(stepLog, st)
 
@@ -480,7 +603,7 @@ func fineScenario(c *vlib.Ctx, section string, i int, r *vlib.Rand, construct bo
 
 	if construct {
 		plan = append(plan, fmt.Sprint("newborn-jump:", jumpTo-mid, ":", procs1))
-		doStep("first-cycle-after-date-change-right-after-creation", -1, r.Chance(1, 3))
+		doStep("first-cycle-after-date-change-right-after-creation", -1, r.Chance(1, 3), faulty && r.Chance(2, 3))
 	} else {
 		batch(r.Range(1, 5))
 	}
@@ -488,7 +611,7 @@ func fineScenario(c *vlib.Ctx, section string, i int, r *vlib.Rand, construct bo
 		// move to the start instant, with or without a cycle there
 		plan = append(plan, "to-start")
 		if r.Chance(1, 2) {
-			doStep("to-start-instant", mid-d, false)
+			doStep("to-start-instant", mid-d, false, false)
 		} else if mid-d > vnow() {
 			visit(vnow())
 			setVirtual(mid - d)
@@ -544,7 +667,19 @@ func fineScenario(c *vlib.Ctx, section string, i int, r *vlib.Rand, construct bo
 			}
 			plan = append(plan, fmt.Sprint("cross:", a, ":", over, ":", stay))
 		}
-		doStep(kind, target, target >= 0 && r.Chance(1, 3))
+		between := target >= 0 && r.Chance(1, 3)
+		withFault := false
+		if faulty {
+			if target >= 0 && dayOf(target) != dayOf(now) {
+				withFault = r.Chance(4, 5)
+			} else {
+				withFault = r.Chance(1, 6)
+			}
+		}
+		doStep(kind, target, between, withFault)
+	}
+	if faulty {
+		c.Count("open_failure_scenarios", 1)
 	}
 	if !construct {
 		c.Count("fine_scenarios", 1)
@@ -554,7 +689,7 @@ func fineScenario(c *vlib.Ctx, section string, i int, r *vlib.Rand, construct bo
 	}
 	c.Distinct(vlib.HashStr(fmt.Sprint(section, s.desc(), day0, d, lead, plan)))
 	if c.WantSample() && i%13 == 0 {
-		c.Sample(map[string]interface{}{"section": section, "logger": s.desc(), "created_on": ymdOfDay(day0),
+		c.Sample(map[string]interface{}{"section": section, "logger": s.desc(), "created_on": ymdOfDay(day0), "open_made_to_fail_by": faultClasses,
 			"start_instant_ms_before_midnight": d, "steps": stepLog, "files_at_end": sortedKeys(files)})
 	}
 }
